@@ -332,3 +332,90 @@ func H_C03_list_fields() {
 	vAssert("ts-values", g.Ts[0].Unix() == 1500000000 && g.Ts[2].Unix() == 1500000000)
 	vAssert("ss", len(g.Ss) == 3 && g.Ss[0] == "a" && g.Ss[1] == "" && g.Ss[2] == "c")
 }
+
+// H_C03_length_forms: the two-octet and three-octet length forms of strings and binaries at lengths that use
+// their high bits (256..1023 for x30-x33 / x34-x37, and 'S' / 'B' with lengths up to 1100).
+func H_C03_length_forms() {
+	n := []int{32, 255, 256, 257, 511, 512, 768, 1023}[vChoice("len", 8)]
+	if vChoice("kind", 2) == 0 {
+		rs := make([]rune, n)
+		for i := range rs {
+			rs[i] = rune('a' + i%26)
+		}
+		rs[n-1] = vScalar("r")
+		form := 1 + vChoice("form", 2)
+		wire := refStringForm(rs, form, 0)
+		got, err := ToObject(refCat([]byte{0x78 + 2}, wire, refInt(7)), nil)
+		l, ok := got.([]interface{})
+		vAssert("string-framing", err == nil && ok && len(l) == 2)
+		g, ok1 := l[0].(string)
+		i2, ok2 := l[1].(int32)
+		vAssert("string-same", ok1 && ok2 && g == string(rs) && i2 == 7)
+		return
+	}
+	b := make([]byte, n)
+	for i := range b {
+		b[i] = byte(i)
+	}
+	b[n-1] = vUint8("b")
+	form := 1 + vChoice("form", 2)
+	wire := refBinaryForm(b, form, 0)
+	got, err := ToObject(refCat([]byte{0x78 + 2}, wire, refInt(7)), nil)
+	l, ok := got.([]interface{})
+	vAssert("binary-framing", err == nil && ok && len(l) == 2)
+	g, ok1 := l[0].([]byte)
+	i2, ok2 := l[1].(int32)
+	vAssert("binary-same", ok1 && ok2 && eqBytes(g, b) && i2 == 7)
+}
+
+// H_C03_maps_and_misc: typed ('M') and untyped ('H') maps at top level and into a map-typed struct field, the
+// millisecond date form, booleans and nulls in fields.
+func H_C03_maps_and_misc() {
+	x := vInt32("x")
+	switch vChoice("what", 6) {
+	case 0: // untyped map at top level
+		got, err := ToObject(refCat([]byte{'H'}, refStr("k"), refInt(x), refStr("j"), refStr("s"), []byte{'Z'}), nil)
+		m, ok := got.(map[interface{}]interface{})
+		vAssert("untyped-map", err == nil && ok && len(m) == 2)
+		a, ok1 := m["k"].(int32)
+		b, ok2 := m["j"].(string)
+		vAssert("untyped-map-entries", ok1 && ok2 && a == x && b == "s")
+	case 1: // typed map at top level: type name registered for a Go map type
+		tm := map[string]reflect.Type{"java.util.HashMap": reflect.TypeOf(map[string]int32{})}
+		got, err := ToObject(refCat([]byte{'M'}, refStr("java.util.HashMap"), refStr("k"), refInt(x), []byte{'Z'}), tm)
+		m, ok := got.(map[string]int32)
+		vAssert("typed-map", err == nil && ok && len(m) == 1 && m["k"] == x)
+	case 2, 3: // a map-typed struct field receives a typed or an untyped map
+		tm, _ := vExtractAll(&ZMaps{})
+		var mp []byte
+		if vChoice("typed", 2) == 1 {
+			mp = refCat([]byte{'M'}, refStr("java.util.HashMap"), refStr("k"), refInt(x), refStr("l"), refInt(2), []byte{'Z'})
+		} else {
+			mp = refCat([]byte{'H'}, refStr("k"), refInt(x), refStr("l"), refInt(2), []byte{'Z'})
+		}
+		wire := refCat(refClassDef("ZMaps", []string{"m1", "m2"}), []byte{0x60}, mp, []byte{'N'})
+		got, err := ToObject(wire, tm)
+		g, ok := got.(*ZMaps)
+		vAssert("map-field", err == nil && ok && len(g.M1) == 2 && len(g.M2) == 0)
+		vAssert("map-field-entries", vAnd(g.M1["k"] == x, g.M1["l"] == 2))
+	case 4: // millisecond date form, any 64-bit millisecond count that time.Unix can carry back
+		ms := vInt64("ms")
+		vAssume(ms >= -62135596800000)
+		vAssume(ms <= 253402300799999)
+		got, err := ToObject(refCat([]byte{0x4a}, refLong(ms)[1:]), nil)
+		t, ok := got.(time.Time)
+		vAssert("date-ms", err == nil && ok)
+		vAssert("date-ms-value", t.Unix()*1000+int64(t.Nanosecond()/1000000) == ms)
+	case 5: // booleans and null in fields
+		tm, _ := vExtractAll(&ZScalars{})
+		b := vBool("b")
+		tag := byte('F')
+		if b {
+			tag = 'T'
+		}
+		wire := refCat(refClassDef("ZScalars", []string{"b", "s", "bs", "i32"}), []byte{0x60, tag, 'N', 'N'}, refInt(x))
+		got, err := ToObject(wire, tm)
+		g, ok := got.(*ZScalars)
+		vAssert("bool-null-fields", err == nil && ok && g.B == b && g.S == "" && len(g.Bs) == 0 && g.I32 == x)
+	}
+}
